@@ -345,7 +345,7 @@ def _load_source_enums():
             if not f.endswith('.rs'): continue
             try: txt = open(os.path.join(dp, f)).read()
             except Exception: continue
-            for m in re.finditer(r'\benum\s+(\w+)\s*\{', txt):
+            for m in re.finditer(r'\benum\s+(\w+)\s*(?:<[^>{]*>)?\s*\{', txt):
                 i = m.end(); depth = 1; j = i
                 while j < len(txt) and depth:
                     if txt[j] == '{': depth += 1
@@ -353,18 +353,21 @@ def _load_source_enums():
                     j += 1
                 body = txt[i:j - 1]
                 body = re.sub(r'//[^\n]*', '', body)
-                # strip nested braces / parens / attributes
-                flat, d = '', 0
+                # split the enum body into top-level variants; remember which ones are struct-like (`Name { .. }`)
+                parts, depth, cur = [], 0, ''
                 for ch in body:
-                    if ch in '{(': d += 1; flat += ('{' if d == 1 and ch == '{' else '')
-                    elif ch in '})': d -= 1
-                    elif d == 0: flat += ch
-                flat = re.sub(r'#\[[^\]]*\]', '', flat)
+                    if ch in '{([': depth += 1
+                    elif ch in '})]': depth -= 1
+                    if ch == ',' and depth == 0:
+                        parts.append(cur); cur = ''
+                    else:
+                        cur += ch
+                parts.append(cur)
                 idx = 0
-                for part in flat.split(','):
-                    part = part.strip()
+                for part in parts:
+                    part = re.sub(r'#\[(?:[^\[\]]|\[[^\[\]]*\])*\]', '', part, flags=re.S).strip()
                     if not part: continue
-                    mm = re.match(r'(\w+)(\{)?', part)
+                    mm = re.match(r'(\w+)\s*(\{)?', part)
                     if not mm: continue
                     seen.setdefault(mm.group(1), set()).add(idx)
                     if mm.group(2): STRUCT_VARIANTS.add(mm.group(1))
